@@ -2,9 +2,36 @@
 """Regenerates MANIFEST.json from the table below (kept in one place so it stays valid)."""
 import json, subprocess, sys
 CHECKS = {
+  "C01": dict(level="exploration", technique="property-based testing (proptest point-set and option generators, both build profiles) against an independent oracle: own L1-L3 recomputation, exact big-integer empty-circumsphere / convexity / coverage tests, brute-force reference Delaunay triangulation",
+     text="Every Ok result of every batch entry point over generated degenerate and general inputs (D 2-5, both kernels, all option combinations) is certified independently; failures are shrunk. Sampling: no absence claim; sizes bounded (n<=40 in 2D ... 11 in 5D).",
+     note="Trusted: the harness' exact arithmetic and level checker (self-tested); documented tolerance band and perturbation bound. Err results are never judged.", ref="3 C01"),
+  "C02": dict(level="exploration", technique="stateful property-based testing: generated insertion/policy histories interpreted against a vertex-set model with the independent L1-L3 oracle after every call",
+     text="Model-based histories of insert / insert_with_statistics with state-relative points (on-facet, on-hull, duplicates, collinear bootstrap prefixes) and mid-history policy changes; invariant checked after every call; shrinks to minimal histories.",
+     note="Vertex links demanded per insertion only under PLManifoldStrict; Delaunay level only under EveryN(1). Trusted: harness oracle.", ref="3 C02"),
+  "C06": dict(level="exploration", technique="stateful property-based testing: generated removal/insertion histories (incl. draining to the bootstrap state, unknown vertices) with independent L1-L3 + exact Delaunay oracle and fingerprint equality",
+     text="Every successful remove_vertex in generated histories is checked for vertex-set exactness, independent levels and (when repair is on and the pre-state was Delaunay) the exact Delaunay level; unknown vertices must be no-ops.",
+     note="Returned cell count only constrained for unknown vertices. Known findings excluded by exact fact signature.", ref="3 C06"),
+  "C07": dict(level="exploration", technique="stateful property-based testing with per-instance exhaustive handle enumeration: generated flip sequences and Pachner walks from a single simplex, every facet/ridge/edge/triangle/cell/vertex handle tried on a clone, metamorphic do/undo oracle plus independent combinatorial invariants",
+     text="Every successful flip is checked for L1/L2, facet degrees, closed boundary, connectedness, Euler characteristic, boundary facet set, vertex set, prescribed cell-count change and exact FlipInfo contents, then undone through the inverse handle and compared with the original cell set.",
+     note="Geometric embedding not demanded of the Edit API; a refused inverse move is recorded only.", ref="3 C07"),
+  "C09": dict(level="exploration", technique="stateful property-based testing: generated histories over insert/remove/Edit-API flips/repair/clone followed by probe insertions on the duplicate-tolerance ladder decided in exact rational arithmetic",
+     text="After every step and for every final vertex, probes at 0..1e-6 from live vertices, with live UUIDs, and at former positions of removed vertices must get the outcome the property prescribes.",
+     note="Tolerance 1e-10 with a 1e-6 relative band; probes only on triangulations with cells; serde round trips covered by C13.", ref="3 C09"),
+  "C10": dict(level="exploration", technique="property-based testing with per-instance exhaustive query/hint grids against exact point-in-simplex and brute-force hull-side oracles",
+     text="On independently certified triangulations every vertex, barycentre, facet/edge midpoint, hull point, beyond-hull point and bounding-box grid point is located under every kind of hint; the returned cell must contain the point exactly, Outside must mean strictly outside the hull, the class must not depend on the hint and the statistics variant must agree.",
+     note="Only queries decidable against every facet hyperplane are judged. Stale keys modelled as same slot, later version.", ref="3 C10"),
   "C12": dict(level="exploration", technique="property-based testing: exhaustive tiny-grid enumeration + proptest generation against an exact big-integer determinant oracle with an explicit tolerance/rounding band",
      text="Every predicate entry point (fast, robust x 4 configs, lifted, both kernels) is compared with the exact sign on every ordered tuple of the 3x3 grid and the unit cube and on generated D=2..5 tuples under vertex permutations; violations are shrunk by proptest. Sampling beyond the exhaustive grids: no absence claim.",
      note="Trusted: the harness' own BigInt/determinant code (unit- and identity-tested), the documented tolerance formula, the a-posteriori GEPP rounding bound (DESIGN 2.1).", ref="3 C12"),
+  "C15": dict(level="exploration", technique="stateful property-based testing, differential against brute-force face enumeration of the stored cells",
+     text="After every state-changing step of generated histories (insert, remove, flips, repair) every topology/adjacency query, indexed and non-indexed, for every live and several missing keys, plus simplex counts, Euler characteristic and classification, is compared with direct enumeration.",
+     note="Only states valid at the configured guarantee (independent L1-L3) are compared.", ref="3 C15"),
+  "C17": dict(level="exploration", technique="exhaustive enumeration of small Hilbert grids + property-based testing of orderings and all dedup implementations against exact-rational validity oracles",
+     text="Hilbert index checked for bijectivity and adjacency on every cell of grids up to 2^12 cells per dimension 1-5; orderings checked to be permutations and dedup outputs to be valid subsets on generated lists with ties, duplicates, signed zeros and extreme ranges.",
+     note="Private batch helpers reached through verif-hooks re-exports. Epsilon comparisons at exactly eps are in band.", ref="3 C17"),
+  "C18": dict(level="exploration", technique="property-based testing: generated simplices compared with exact rational Gram-determinant / Cramer reference values, plus metamorphic permutation / translation / scaling relations",
+     text="Volume, facet measure, circumcentre, circumradius, inradius and quality ratios of generated D=1..5 simplices are compared with exact values (rel. 1e-9 after a conditioning filter); exactly degenerate simplices must be rejected.",
+     note="Reference values are exact rationals rounded once. Translation invariance only asserted for exactly representable translations.", ref="3 C18"),
 }
 NOT_YET = {}
 def main():
